@@ -1131,7 +1131,7 @@ func main() {
 
 	scale, shard := 1, 90
 	if c.Thorough() {
-		scale, shard = 6, 200
+		scale, shard = 5, 200
 	}
 	runUnits(c, 150*scale)
 	plan := []struct {
